@@ -169,7 +169,7 @@ def certUnary (fn : Fn) (a : FArg) (p : Nat) (claim : Claim) : Option String :=
           some (verdictStr (fun ex => certExpScaled B x sig e p ex fuel (effort0 (absR sig) u)) exact text
             (fun n => if n = 0 then "error>=16ulp(exponent-far-off)" else bucket (expScaledEncl B x e) sig u n))
       | .expm1 =>
-        if absR x ≤ 200000 ∧ e.natAbs ≤ 10 * maxExpAbs then
+        if (x < 0 ∨ x ≤ 1100000) ∧ e.natAbs ≤ 4000000 then
           let r := fval B sig e; let u := ulp B sig e p
           some (verdictStr (fun ex => certExpm1 B x sig e p ex fuel (effort0 (absR r + 1) u)) exact text (bucket (expm1Encl x) r u))
         else none
